@@ -211,6 +211,22 @@ impl Write for Hiccup<'_> {
     }
 }
 
+/// Accepts everything, except that its `.2`-th write call fails with a real error (the pipe's reader went away for a moment) and takes nothing.
+struct FailOnce<'a>(&'a mut Vec<u8>, usize, usize);
+impl Write for FailOnce<'_> {
+    fn write(&mut self, buf: &[u8]) -> std::io::Result<usize> {
+        self.1 += 1;
+        if self.1 == self.2 {
+            return Err(std::io::Error::new(std::io::ErrorKind::Other, "refused once"));
+        }
+        self.0.extend_from_slice(buf);
+        Ok(buf.len())
+    }
+    fn flush(&mut self) -> std::io::Result<()> {
+        Ok(())
+    }
+}
+
 struct Trickle<'a>(&'a mut Vec<u8>, usize);
 impl Write for Trickle<'_> {
     fn write(&mut self, buf: &[u8]) -> std::io::Result<usize> {
@@ -254,6 +270,7 @@ pub fn writers(args: &[String]) {
     let mut violations: Vec<Value> = Vec::new();
     let mut samples: Vec<Value> = Vec::new();
     let mut counter: u64 = 0;
+    let mut handled_failures: u64 = 0;
     for len in 0..=maxlen {
         for bits in 0..(1u64 << len) {
             let input: Vec<u8> = (0..len).map(|i| if bits >> i & 1 == 1 { marker } else { b'a' + (i % 3) as u8 }).collect();
@@ -380,6 +397,85 @@ pub fn writers(args: &[String]) {
                 }
                 check("vectored mapped(tee(tee)).a", &a, &want);
                 check("vectored mapped(tee(tee)).b", &b, &want);
+                // 7. a target that refuses one write call with a real error; the caller handles the error and carries on with the next chunk
+                // (the next line, the next command's output through the same writer): what follows the failed call arrives complete, and
+                // what the refused call was given has no part in it
+                if !chunks.is_empty() {
+                    let k = 1 + (counter as usize / 3) % chunks.len();
+                    let (mut a, mut b) = (Vec::new(), Vec::new());
+                    let mut failed: Option<usize> = None;
+                    {
+                        let mut w = tee(&mut a, FailOnce(&mut b, 0, k));
+                        for (i, c) in chunks.iter().enumerate() {
+                            if w.write_all(c).is_err() {
+                                failed = Some(i);
+                            }
+                        }
+                        let _ = w.flush();
+                    }
+                    if let Some(f) = failed {
+                        handled_failures += 1;
+                        let pre: Vec<u8> = chunks[..f].concat();
+                        let post: Vec<u8> = chunks[f + 1..].concat();
+                        let mut want_b = pre.clone();
+                        want_b.extend_from_slice(&post);
+                        check("tee(plain,refuses-once).b [all chunks but the refused one]", &b, &want_b);
+                        // the first target may or may not have been given (part of) the refused chunk
+                        let ok = a.len() >= pre.len() + post.len() && a.starts_with(&pre) && a.ends_with(&post) && chunks[f].starts_with(&a[pre.len()..a.len() - post.len()]);
+                        let mut want_a = pre.clone();
+                        want_a.extend_from_slice(chunks[f]);
+                        want_a.extend_from_slice(&post);
+                        check("tee(plain,refuses-once).a [chunks before, at most the refused chunk, chunks after]", if ok { &want_a } else { &a }, &want_a);
+                    }
+                    // ... and under a mapped writer: the segment whose emission was refused is lost, every other segment arrives whole and alone
+                    let nseg = bits.count_ones() as usize + 1;
+                    let k = 1 + (counter as usize / 5) % nseg;
+                    let mut out = Vec::new();
+                    let mut failed: Option<usize> = None;
+                    {
+                        let mut w = line_mapped(FailOnce(&mut out, 0, k), mapf);
+                        for (i, c) in chunks.iter().enumerate() {
+                            if w.write_all(c).is_err() {
+                                failed = Some(i);
+                            }
+                        }
+                    }
+                    // candidates: the refused chunk was consumed up to the marker whose segment was refused, or any further
+                    let model = |upto: Option<usize>| -> Vec<u8> {
+                        let (mut o, mut cur, mut emitted) = (Vec::new(), Vec::new(), 0usize);
+                        for (i, c) in chunks.iter().enumerate() {
+                            let mut stop: Option<usize> = None;
+                            for (j, byte) in c.iter().enumerate() {
+                                if let Some(s) = stop {
+                                    if j >= s { break; }
+                                }
+                                cur.push(*byte);
+                                if *byte == marker {
+                                    emitted += 1;
+                                    let seg = std::mem::take(&mut cur);
+                                    if emitted == k {
+                                        if Some(i) == failed { stop = Some(upto.map_or(j + 1, |u| (j + 1).max(u))); }
+                                    } else {
+                                        o.extend(mapf(seg));
+                                    }
+                                }
+                            }
+                        }
+                        if !cur.is_empty() {
+                            emitted += 1;
+                            if emitted != k { o.extend(mapf(cur)); }
+                        }
+                        o
+                    };
+                    if let Some(f) = failed {
+                        handled_failures += 1;
+                        let cands: Vec<Vec<u8>> = (0..=chunks[f].len()).map(|u| model(Some(u))).collect();
+                        let hit = cands.iter().find(|c| **c == out).cloned().unwrap_or_else(|| cands[0].clone());
+                        check("line_mapped(refuses-once) [every segment but the refused one, whole and alone]", &out, &hit);
+                    } else {
+                        check("line_mapped(refuses-once at the final emission)", &out, &model(None));
+                    }
+                }
                 if samples.len() < 2 && len >= 5 && chunks.len() >= 3 && bits.count_ones() >= 2 {
                     samples.push(json!({"input": String::from_utf8_lossy(&input), "chunks": chunks.iter().map(|c| String::from_utf8_lossy(c).to_string()).collect::<Vec<_>>(), "emitted": String::from_utf8_lossy(&want)}));
                 }
@@ -447,5 +543,5 @@ pub fn writers(args: &[String]) {
             }
         }
     }
-    println!("{}", json!({"cases": cases + long_cases, "nontrivial": nontrivial + long_cases, "runs": runs, "violations": violations, "samples": samples, "long_segment_cases": long_cases}));
+    println!("{}", json!({"cases": cases + long_cases, "nontrivial": nontrivial + long_cases, "runs": runs, "violations": violations, "samples": samples, "long_segment_cases": long_cases, "handled_failures": handled_failures}));
 }
